@@ -1,8 +1,8 @@
-(* C32 obligation: mp_powm with a non-negative exponent is a^e mod |m| in [0, |m|): GMP's mpz_powm for every non-zero modulus, the mp_boost.cpp version for positive moduli *)
+(* C32 obligation: mp_powm with a non-negative exponent is a^e mod |m| in [0, |m|), for every non-zero modulus, in both configurations (mpz_powm; mp_boost.cpp corrects boost's truncated result by |m|) *)
 From SE Require Import C32.NtSpec C32.NtProofsPowm.
 Local Open Scope Z_scope.
-Theorem C32_mp_powm_guarded :
+Theorem C32_mp_powm :
   forall (c : cfg) (a e m : Z),
-  0 <= e -> (c = GMP /\ m <> 0) \/ 0 < m -> mp_powm c a e m = Ok ((a ^ e) mod (Z.abs m)).
+  0 <= e -> m <> 0 -> mp_powm c a e m = Ok ((a ^ e) mod (Z.abs m)).
 Proof. exact mp_powm_correct. Qed.
-Print Assumptions C32_mp_powm_guarded.
+Print Assumptions C32_mp_powm.
